@@ -198,6 +198,9 @@ func genC07(t *rapid.T) C07Case {
 		c.W2 = rapid.Uint64Range(0, c.W-1).Draw(t, "xn")
 		shape("inplace")
 	}
+	if c.Shape == "guard" {
+		c.Off = rapid.IntRange(0, 1).Draw(t, "guardside") // sources flush against the page behind them / right after the page in front
+	}
 	return c
 }
 
@@ -250,11 +253,12 @@ func arrange(shape string, off, ext int, x, y []uint64, up bool) (z, xs, ys []de
 	}
 	switch shape {
 	case "guard":
-		// every operand ends flush against an inaccessible page (sources) or starts right after one: a kernel
-		// that reads or writes one word beyond a vector faults instead of getting away with it
-		if gx, ok := guardedCopy(xs, true); ok {
+		// every operand ends flush against an inaccessible page or starts right after one: a kernel that reads
+		// or writes one word beyond (or in front of) a vector faults instead of getting away with it
+		srcAtEnd := off%2 == 0 // (off is otherwise unused with this shape) odd: sources start right after a guard page
+		if gx, ok := guardedCopy(xs, srcAtEnd); ok {
 			xs = gx
-			if gy, ok := guardedCopy(ys, true); ok {
+			if gy, ok := guardedCopy(ys, srcAtEnd); ok {
 				ys = gy
 			}
 			if gz, ok := guardedCopy(make([]decimal.Word, n), up); ok {
@@ -564,6 +568,23 @@ func TestC07Grid(t *testing.T) {
 		h.RecordGrid("C07", o, c)
 		n++
 	}
+	// long in-array shifts: block-copy fast paths start at sizes of their own (kilobytes, pages, 64 KiB) and must get
+	// the overlap direction right for every distance between source and destination, not only for neighbours
+	for _, k := range []string{"shl10VU", "shr10VU"} {
+		for _, l := range []int{1500, 8192, 8200, 20011} {
+			x := make([]uint64, l)
+			for i := range x {
+				x[i] = 1 + next()%(h.Base-1)
+			}
+			for _, s := range []uint{0, 7} {
+				for _, off := range []int{1, 2, l / 16, l/8 - 1, l / 8, l / 5, l / 2, l - 1, l} {
+					runCase(C07Case{K: k, X: x, S: s, Shape: "overlap", Off: off})
+				}
+				runCase(C07Case{K: k, X: x, S: s, Shape: "inplace"})
+				runCase(C07Case{K: k, X: x, S: s})
+			}
+		}
+	}
 	for _, k := range []string{"shl10VU", "shr10VU"} {
 		for s := uint(0); s <= 18; s++ {
 			for l := 0; l <= 70; l++ {
@@ -659,6 +680,12 @@ func TestC07Grid(t *testing.T) {
 				if w > 0 {
 					runCase(C07Case{K: "div10VWW", X: x, W: w, W2: w - 1, Shape: sh})
 					runCase(C07Case{K: "div10VWW", X: x, W: w, W2: 0, Shape: sh})
+				}
+			}
+			if l > 0 && w > 0 {
+				for side := 0; side <= 1; side++ {
+					runCase(C07Case{K: "mulAdd10VWW", X: x, W: w, W2: 3, Shape: "guard", Off: side})
+					runCase(C07Case{K: "div10VWW", X: x, W: w, W2: w - 1, Shape: "guard", Off: side})
 				}
 			}
 			runCase(C07Case{K: "addMul10VVW", X: x, Y: z, W: w})
